@@ -7,6 +7,7 @@ package s2
 
 import (
 	"fmt"
+	"math"
 	"math/rand"
 	"net/url"
 	"sort"
@@ -509,7 +510,9 @@ func feed(c *harness.Ctx) {
 	if total > 0 {
 		const N = 240
 		i := 0
+		draws := 0
 		d2.VerifSetRngSource(&simSource{real: rand.NewSource(1), next: func() int64 {
+			draws++
 			v := int64((float64(i) + 0.5) / N * float64(uint64(1)<<63))
 			return v
 		}})
@@ -522,10 +525,26 @@ func feed(c *harness.Ctx) {
 			}
 			got[h.String()]++
 		}
+		// How exact the comparison can be depends on how the implementation uses its random source. When it takes
+		// exactly one value from the package's generator per resolution, the evenly spaced values make the counts
+		// exact up to rounding at the boundaries. When it does anything else with it (seeds generators of its own,
+		// draws several values), the sweep is a plain sample of N selections: the tolerance is then statistical
+		// (six standard deviations of the binomial count, so that hundreds of thousands of sweeps stay quiet).
+		exact := draws == N
+		if exact {
+			c.Probe("sweep-one-draw-per-resolution")
+		} else {
+			c.Probe("sweep-statistical-tolerance")
+		}
 		for u, w := range want {
-			exp := float64(N) * w / total
-			if d := float64(got[u]) - exp; d > float64(len(el)+1) || d < -float64(len(el)+1) {
-				c.Fail("C19", "proportion", "proportion", "host %s weight %g of %g: selected %d times in an even sweep of %d, expected %.1f ± %d; all=%v (%s)", u, w, total, got[u], N, exp, len(el)+1, got, desc)
+			p := w / total
+			exp := float64(N) * p
+			tol := float64(len(el) + 1)
+			if !exact {
+				tol += 6 * math.Sqrt(float64(N)*p*(1-p))
+			}
+			if d := float64(got[u]) - exp; d > tol || d < -tol {
+				c.Fail("C19", "proportion", "proportion", "host %s weight %g of %g: selected %d times in a sweep of %d (one draw per resolution: %v), expected %.1f ± %.1f; all=%v (%s)", u, w, total, got[u], N, exact, exp, tol, got, desc)
 				return
 			}
 		}
